@@ -27,7 +27,11 @@ Things that make Arpeggio differ from textbook PEG and are mirrored here:
   used inside an `eolterm` repetition leaves `_real_ws` without newlines;
 * the comment cache and the memo cache are keyed by position only.
 
-Core Lean only.  Everything is total: recursion is on a fuel argument.
+Core Lean only.  Everything is total.  Structure (chosen so that proofs are modular): the
+loops of the `_parse` methods are ordinary functions that take the sub-parser
+`p : Nat → PState → Res × PState` ("parse child node `e` in state `s`") as a parameter —
+list loops recurse on the list, `while` loops on their own fuel — and `parse` itself is the only
+function recursive on the global fuel: `parse g (n+1)` runs the node's `_parse` with `p := parse g n`.
 -/
 namespace Peg
 
@@ -185,196 +189,48 @@ def wrap (memo : Bool) (id : Nat) (nd : Node) (body : PState → Res × PState) 
   | some r => r
   | .none => cacheStore memo id nd s.pos (body s)
 
-mutual
-/-- `e.parse(parser)` for the node with index `id` -/
-def parse (g : Grammar) : Nat → Nat → PState → Res × PState
-  | 0, _, s => (.fuel, s)
-  | n+1, id, s =>
-    match g.nodes[id]? with
-    | .none => (.bad, s)
-    | some nd =>
-      match nd.kind with
-      | .str | .re | .eof => matchParse g n id nd s
-      | _ =>
-        -- ParsingExpression.parse (= `wrap g.memo id nd (parseBody g n id nd) s`, see `parse_eq_wrap`)
-        match cacheHit g.memo id s with
-        | some r => r
-        | .none => cacheStore g.memo id nd s.pos (parseBody g n id nd s)
-
-/-- `Match.parse`: whitespace, comments (with the position-keyed cache), then the match -/
-def matchParse (g : Grammar) : Nat → Nat → Node → PState → Res × PState
-  | 0, _, _, s => (.fuel, s)
-  | n+1, id, nd, s =>
-    let s := if s.skipws then skipWs g s else s
-    let rs : Res × PState :=
-      match (if s.skipws then s.commentPos.lookup s.pos else .none) with
-      | some p => (.ok .none, { s with pos := p })
-      | .none =>
-        if s.inComments then (.ok .none, s) else
-          let start := s.pos
-          match parseComments g n { s with inComments := true } with
-          | (.ok _, s2) =>
-              let s2 := { s2 with inComments := false }
-              (.ok .none, { s2 with commentPos := (start, s2.pos) :: s2.commentPos })
-          | (r, s2) => (r, { s2 with inComments := false })
-    match rs with
-    | (.ok _, s) =>
-      let cpos := s.pos
-      match nd.kind with
-      | .eof =>
-          if g.input.size = cpos then (.ok (if nd.suppress then .none else .term id cpos 0), s)
-          else (.nomatch, s.nmRaise cpos)
-      | .str =>
-          match tokLen g nd.tok cpos with
-          | some len => (.ok (if nd.suppress then .none else .term id cpos len), { s with pos := cpos + len })
-          | .none => (.nomatch, s.nmRaise cpos)
-      | _ =>  -- regex: an empty match yields None
-          match tokLen g nd.tok cpos with
-          | some len =>
-              (.ok (if nd.suppress || len = 0 then .none else .term id cpos len), { s with pos := cpos + len })
-          | .none => (.nomatch, s.nmRaise cpos)
-    | r => r
-
-/-- `Match._parse_comments`: returns `.ok` when the loop ended by a NoMatch of the comment model -/
-def parseComments (g : Grammar) : Nat → PState → Res × PState
-  | 0, s => (.fuel, s)
-  | n+1, s =>
-    match g.comments with
-    | .none => (.ok .none, s)
-    | some cm =>
-      match parse g n cm s with
-      | (.ok _, s2) =>
-          let s2 := if s2.skipws then skipWs g s2 else s2
-          parseComments g n s2
-      | (.nomatch, s2) => (.ok .none, s2)
-      | r => r
-
-/-- the `_parse` methods of the non-terminal expression classes -/
-def parseBody (g : Grammar) : Nat → Nat → Node → PState → Res × PState
-  | 0, _, _, s => (.fuel, s)
-  | n+1, id, nd, s =>
-    match nd.kind with
-    | .seq =>
-        let cpos := s.pos
-        let oldWs := s.ws
-        let oldSkip := s.skipws
-        let s1 := match nd.ws with | some w => s.setWs w | .none => s
-        let s1 := match nd.skipws with | some b => { s1 with skipws := b } | .none => s1
-        let (r, s2) := parseSeq g n nd.kids s1 []
-        let s2 := match nd.ws with | some _ => s2.setWs oldWs | .none => s2
-        let s2 := match nd.skipws with | some _ => { s2 with skipws := oldSkip } | .none => s2
-        match r with
-        | .nomatch => (.nomatch, { s2 with pos := cpos })
-        | r => (r, s2)
-    | .choice =>
-        let cpos := s.pos
-        let oldWs := s.ws
-        let oldSkip := s.skipws
-        let s1 := match nd.ws with | some w => s.setWs w | .none => s
-        let s1 := match nd.skipws with | some b => { s1 with skipws := b } | .none => s1
-        let (r, s2) := parseChoice g n nd.kids cpos s1
-        let s2 := match nd.ws with | some _ => s2.setWs oldWs | .none => s2
-        let s2 := match nd.skipws with | some _ => { s2 with skipws := oldSkip } | .none => s2
-        match r with
-        | .nomatch => (.nomatch, s2.nmRaise cpos)
-        | r => (r, s2)
-    | .opt =>
-        let cpos := s.pos
-        match nd.kids with
-        | [k] =>
-          match parse g n k s with
-          | (.ok v, s2) => (.ok (.list [v]), s2)
-          | (.nomatch, s2) => (.ok .none, { s2 with pos := cpos })
-          | r => r
-        | _ => (.bad, s)
-    | .star =>
-        match nd.kids with
-        | [k] =>
-          let old := s.eolterm
-          let s1 := if nd.eolterm then s.setEolterm true else s
-          let (r, s2) := parseRep g n k nd.sep s1 [] false false
-          let s2 := if nd.eolterm then s2.setEolterm old else s2
-          (r, s2)
-        | _ => (.bad, s)
-    | .plus =>
-        match nd.kids with
-        | [k] =>
-          let old := s.eolterm
-          let s1 := if nd.eolterm then s.setEolterm true else s
-          let (r, s2) := parseRep g n k nd.sep s1 [] true false
-          let s2 := if nd.eolterm then s2.setEolterm old else s2
-          (r, s2)
-        | _ => (.bad, s)
-    | .unord =>
-        let cpos := s.pos
-        let old := s.eolterm
-        let s1 := if nd.eolterm then s.setEolterm true else s
-        let (r, s2) := parseUnord g n nd.kids nd.sep s1 [] true .none
-        let s2 := if nd.eolterm then s2.setEolterm old else s2
-        match r with
-        | .nomatch => (.nomatch, ({ s2 with pos := cpos }).nmRaise cpos)
-        | r => (r, s2)
-    | .andP =>
-        let cpos := s.pos
-        match nd.kids with
-        | [k] =>
-          match parse g n k s with
-          | (.ok _, s2) => (.ok .none, { s2 with pos := cpos })
-          | (.nomatch, s2) => (.nomatch, { s2 with pos := cpos })
-          | r => r
-        | _ => (.bad, s)
-    | .notP =>
-        let cpos := s.pos
-        match nd.kids with
-        | [k] =>
-          match parse g n k s with
-          | (.ok _, s2) => (.nomatch, ({ s2 with pos := cpos }).nmRaise cpos)
-          | (.nomatch, s2) => (.ok .none, { s2 with pos := cpos })
-          | r => r
-        | _ => (.bad, s)
-    | _ => (.bad, s)
+/-- a sub-parser: "`e.parse(parser)` for the child with index `e`" -/
+abbrev SubParser := Nat → PState → Res × PState
 
 /-- `Sequence._parse` loop: keep truthy results only -/
-def parseSeq (g : Grammar) : Nat → List Nat → PState → List Val → Res × PState
-  | 0, _, s, _ => (.fuel, s)
-  | _+1, [], s, acc => (.ok (if acc.isEmpty then .none else .list acc.reverse), s)
-  | n+1, e :: es, s, acc =>
-    match parse g n e s with
-    | (.ok v, s2) => parseSeq g n es s2 (if v.truthy then v :: acc else acc)
+def seqLoop (p : SubParser) : List Nat → PState → List Val → Res × PState
+  | [], s, acc => (.ok (if acc.isEmpty then .none else .list acc.reverse), s)
+  | e :: es, s, acc =>
+    match p e s with
+    | (.ok v, s2) => seqLoop p es s2 (if v.truthy then v :: acc else acc)
     | r => r
 
 /-- `OrderedChoice._parse` loop -/
-def parseChoice (g : Grammar) : Nat → List Nat → Nat → PState → Res × PState
-  | 0, _, _, s => (.fuel, s)
-  | _+1, [], _, s => (.nomatch, s)
-  | n+1, e :: es, cpos, s =>
-    match parse g n e s with
-    | (.ok .none, s2) => parseChoice g n es cpos s2            -- None: not a match, position kept
+def choiceLoop (p : SubParser) : List Nat → Nat → PState → Res × PState
+  | [], _, s => (.nomatch, s)
+  | e :: es, cpos, s =>
+    match p e s with
+    | (.ok .none, s2) => choiceLoop p es cpos s2            -- None: not a match, position kept
     | (.ok v, s2) => (.ok (.list [v]), s2)
-    | (.nomatch, s2) => parseChoice g n es cpos { s2 with pos := cpos }
+    | (.nomatch, s2) => choiceLoop p es cpos { s2 with pos := cpos }
     | r => r
 
-/-- the `while True` loop of `ZeroOrMore._parse` / `OneOrMore._parse`.
+/-- the `while True` loop of `ZeroOrMore._parse` / `OneOrMore._parse` (own fuel `k`).
 `first` = OneOrMore that has not matched yet; `prev` = truthiness of the previous `result` -/
-def parseRep (g : Grammar) : Nat → Nat → Option Nat → PState → List Val → Bool → Bool → Res × PState
-  | 0, _, _, s, _, _, _ => (.fuel, s)
-  | n+1, k, sep, s, acc, first, prev =>
+def repLoop (p : SubParser) (e : Nat) (sep : Option Nat) : Nat → PState → List Val → Bool → Bool → Res × PState
+  | 0, s, _, _, _ => (.fuel, s)
+  | k+1, s, acc, first, prev =>
     let cpos := s.pos
     -- separator only after a truthy previous result
     let sr : Res × PState × List Val :=
       match sep with
       | some sp =>
         if prev then
-          match parse g n sp s with
+          match p sp s with
           | (.ok v, s') => (.ok .none, s', if v.truthy then v :: acc else acc)
           | (r, s') => (r, s', acc)
         else (.ok .none, s, acc)
       | .none => (.ok .none, s, acc)
     match sr with
     | (.ok _, s1, acc1) =>
-      match parse g n k s1 with
+      match p e s1 with
       | (.ok v, s2) =>
-          if v.truthy then parseRep g n k sep s2 (v :: acc1) false true
+          if v.truthy then repLoop p e sep k s2 (v :: acc1) false true
           else (.ok (.list acc1.reverse), s2)                    -- `if not result: break`
       | (.nomatch, s2) =>
           if first then (.nomatch, { s2 with pos := cpos })
@@ -385,20 +241,34 @@ def parseRep (g : Grammar) : Nat → Nat → Option Nat → PState → List Val 
         else (.ok (.list acc.reverse), { s1 with pos := cpos })
     | (r, s1, _) => (r, s1)
 
-/-- `UnorderedGroup._parse`: the outer `while nodes_to_try` loop.
+/-- the inner `for e in list(nodes_to_try)` loop of `UnorderedGroup._parse`; `mtch` is the variable `match` -/
+def unordFor (p : SubParser) : List Nat → Nat → PState → Bool → Bool → ForRes × PState
+  | [], _, s, _, mtch => (.exhausted mtch, s)
+  | e :: es, posLoc, s, sepExc, mtch =>
+    match p e s with
+    | (.ok v, s2) =>
+        if v.truthy then
+          if sepExc then unordFor p es posLoc { s2 with pos := posLoc } sepExc false   -- `raise sep_exc`
+          else (.hit v e, s2)
+        else unordFor p es posLoc s2 sepExc mtch
+    | (.nomatch, s2) => unordFor p es posLoc { s2 with pos := posLoc } sepExc false
+    | (.fuel, s2) => (.fuel, s2)
+    | (.bad, s2) => (.bad, s2)
+
+/-- `UnorderedGroup._parse`: the outer `while nodes_to_try` loop (own fuel `k`).
 `sepRes` is the variable `sep_result`, which survives iterations. -/
-def parseUnord (g : Grammar) : Nat → List Nat → Option Nat → PState → List Val → Bool → Option Val →
+def unordLoop (p : SubParser) (sep : Option Nat) : Nat → List Nat → PState → List Val → Bool → Option Val →
     Res × PState
-  | 0, _, _, s, _, _, _ => (.fuel, s)
-  | _+1, [], _, s, acc, _, _ => (.ok (if acc.isEmpty then .none else .list acc.reverse), s)
-  | n+1, todo, sep, s, acc, first, sepRes =>
+  | 0, _, s, _, _, _ => (.fuel, s)
+  | _+1, [], s, acc, _, _ => (.ok (if acc.isEmpty then .none else .list acc.reverse), s)
+  | k+1, todo, s, acc, first, sepRes =>
     let posSep := s.pos
     -- separator
     let sr : Res × PState × Bool × Option Val :=
       match sep with
       | some sp =>
         if !first then
-          match parse g n sp s with
+          match p sp s with
           | (.ok v, s') => (.ok .none, s', false, some v)
           | (.nomatch, s') => (.ok .none, { s' with pos := posSep }, true, sepRes)
           | (r, s') => (r, s', false, sepRes)
@@ -407,13 +277,13 @@ def parseUnord (g : Grammar) : Nat → List Nat → Option Nat → PState → Li
     match sr with
     | (.ok _, s1, sepExc, sepRes1) =>
       let posLoc := s1.pos
-      match unordFor g n todo posLoc s1 sepExc true with
+      match unordFor p todo posLoc s1 sepExc true with
       | (.hit v e, s2) =>
           -- an element matched with a truthy result: `break` out of the for loop
           let acc1 := match sepRes1 with
             | some sv => if sv.truthy then sv :: acc else acc
             | .none => acc
-          parseUnord g n (remove todo e) sep s2 (v :: acc1) false sepRes1
+          unordLoop p sep k (remove todo e) s2 (v :: acc1) false sepRes1
       | (.exhausted true, s2) =>
           -- `match` still True, all optionals failed: success with what was collected
           (.ok (if acc.isEmpty then .none else .list acc.reverse), { s2 with pos := posSep })
@@ -422,21 +292,141 @@ def parseUnord (g : Grammar) : Nat → List Nat → Option Nat → PState → Li
       | (.bad, s2) => (.bad, s2)
     | (r, s1, _, _) => (r, s1)
 
-/-- the inner `for e in list(nodes_to_try)` loop; `mtch` is the variable `match` -/
-def unordFor (g : Grammar) : Nat → List Nat → Nat → PState → Bool → Bool → ForRes × PState
-  | 0, _, _, s, _, _ => (.fuel, s)
-  | _+1, [], _, s, _, mtch => (.exhausted mtch, s)
-  | n+1, e :: es, posLoc, s, sepExc, mtch =>
-    match parse g n e s with
-    | (.ok v, s2) =>
-        if v.truthy then
-          if sepExc then unordFor g n es posLoc { s2 with pos := posLoc } sepExc false   -- `raise sep_exc`
-          else (.hit v e, s2)
-        else unordFor g n es posLoc s2 sepExc mtch
-    | (.nomatch, s2) => unordFor g n es posLoc { s2 with pos := posLoc } sepExc false
-    | (.fuel, s2) => (.fuel, s2)
-    | (.bad, s2) => (.bad, s2)
-end
+/-- `Match._parse_comments` (own fuel `k`): `.ok` when the loop ended by a NoMatch of the comment model -/
+def commentsLoop (g : Grammar) (p : SubParser) : Nat → PState → Res × PState
+  | 0, s => (.fuel, s)
+  | k+1, s =>
+    match g.comments with
+    | .none => (.ok .none, s)
+    | some cm =>
+      match p cm s with
+      | (.ok _, s2) =>
+          let s2 := if s2.skipws then skipWs g s2 else s2
+          commentsLoop g p k s2
+      | (.nomatch, s2) => (.ok .none, s2)
+      | r => r
+
+/-- `Match.parse`: whitespace, comments (with the position-keyed cache), then the match.
+`pc` = the comment loop (`_parse_comments`). -/
+def matchNode (g : Grammar) (pc : PState → Res × PState) (id : Nat) (nd : Node) (s : PState) : Res × PState :=
+  let s := if s.skipws then skipWs g s else s
+  let rs : Res × PState :=
+    match (if s.skipws then s.commentPos.lookup s.pos else .none) with
+    | some p => (.ok .none, { s with pos := p })
+    | .none =>
+      if s.inComments then (.ok .none, s) else
+        let start := s.pos
+        match pc { s with inComments := true } with
+        | (.ok _, s2) =>
+            let s2 := { s2 with inComments := false }
+            (.ok .none, { s2 with commentPos := (start, s2.pos) :: s2.commentPos })
+        | (r, s2) => (r, { s2 with inComments := false })
+  match rs with
+  | (.ok _, s) =>
+    let cpos := s.pos
+    match nd.kind with
+    | .eof =>
+        if g.input.size = cpos then (.ok (if nd.suppress then .none else .term id cpos 0), s)
+        else (.nomatch, s.nmRaise cpos)
+    | .str =>
+        match tokLen g nd.tok cpos with
+        | some len => (.ok (if nd.suppress then .none else .term id cpos len), { s with pos := cpos + len })
+        | .none => (.nomatch, s.nmRaise cpos)
+    | _ =>  -- regex: an empty match yields None
+        match tokLen g nd.tok cpos with
+        | some len =>
+            (.ok (if nd.suppress || len = 0 then .none else .term id cpos len), { s with pos := cpos + len })
+        | .none => (.nomatch, s.nmRaise cpos)
+  | r => r
+
+/-- `Sequence` / `OrderedChoice`: set the node's `ws` / `skipws`, run `body`, restore (the `finally` block) -/
+def withWsCtx (nd : Node) (body : PState → Res × PState) (s : PState) : Res × PState :=
+  let oldWs := s.ws
+  let oldSkip := s.skipws
+  let s1 := match nd.ws with | some w => s.setWs w | .none => s
+  let s1 := match nd.skipws with | some b => { s1 with skipws := b } | .none => s1
+  let (r, s2) := body s1
+  let s2 := match nd.ws with | some _ => s2.setWs oldWs | .none => s2
+  let s2 := match nd.skipws with | some _ => { s2 with skipws := oldSkip } | .none => s2
+  (r, s2)
+
+/-- repetitions: set `parser.eolterm`, run `body`, restore -/
+def withEol (nd : Node) (body : PState → Res × PState) (s : PState) : Res × PState :=
+  let old := s.eolterm
+  let s1 := if nd.eolterm then s.setEolterm true else s
+  let (r, s2) := body s1
+  let s2 := if nd.eolterm then s2.setEolterm old else s2
+  (r, s2)
+
+/-- the `_parse` methods of the non-terminal expression classes; `k` = fuel for `while` loops -/
+def bodyNode (p : SubParser) (k : Nat) (nd : Node) (s : PState) : Res × PState :=
+  match nd.kind with
+  | .seq =>
+      let cpos := s.pos
+      match withWsCtx nd (fun s1 => seqLoop p nd.kids s1 []) s with
+      | (.nomatch, s2) => (.nomatch, { s2 with pos := cpos })
+      | r => r
+  | .choice =>
+      let cpos := s.pos
+      match withWsCtx nd (fun s1 => choiceLoop p nd.kids cpos s1) s with
+      | (.nomatch, s2) => (.nomatch, s2.nmRaise cpos)
+      | r => r
+  | .opt =>
+      let cpos := s.pos
+      match nd.kids with
+      | [e] =>
+        match p e s with
+        | (.ok v, s2) => (.ok (.list [v]), s2)
+        | (.nomatch, s2) => (.ok .none, { s2 with pos := cpos })
+        | r => r
+      | _ => (.bad, s)
+  | .star =>
+      match nd.kids with
+      | [e] => withEol nd (fun s1 => repLoop p e nd.sep k s1 [] false false) s
+      | _ => (.bad, s)
+  | .plus =>
+      match nd.kids with
+      | [e] => withEol nd (fun s1 => repLoop p e nd.sep k s1 [] true false) s
+      | _ => (.bad, s)
+  | .unord =>
+      let cpos := s.pos
+      match withEol nd (fun s1 => unordLoop p nd.sep k nd.kids s1 [] true .none) s with
+      | (.nomatch, s2) => (.nomatch, ({ s2 with pos := cpos }).nmRaise cpos)
+      | r => r
+  | .andP =>
+      let cpos := s.pos
+      match nd.kids with
+      | [e] =>
+        match p e s with
+        | (.ok _, s2) => (.ok .none, { s2 with pos := cpos })
+        | (.nomatch, s2) => (.nomatch, { s2 with pos := cpos })
+        | r => r
+      | _ => (.bad, s)
+  | .notP =>
+      let cpos := s.pos
+      match nd.kids with
+      | [e] =>
+        match p e s with
+        | (.ok _, s2) => (.nomatch, ({ s2 with pos := cpos }).nmRaise cpos)
+        | (.nomatch, s2) => (.ok .none, { s2 with pos := cpos })
+        | r => r
+      | _ => (.bad, s)
+  | _ => (.bad, s)
+
+/-- one node: `Match.parse` for terminals, `ParsingExpression.parse` (memo prologue, `_parse`,
+epilogue) for the others; `p` parses children, `k` bounds `while` loops -/
+def nodeParse (g : Grammar) (p : SubParser) (k : Nat) (id : Nat) (s : PState) : Res × PState :=
+  match g.nodes[id]? with
+  | .none => (.bad, s)
+  | some nd =>
+    match nd.kind with
+    | .str | .re | .eof => matchNode g (commentsLoop g p k) id nd s
+    | _ => wrap g.memo id nd (bodyNode p k nd) s
+
+/-- `e.parse(parser)` for the node with index `id`, with global fuel -/
+def parse (g : Grammar) : Nat → SubParser
+  | 0 => fun _ s => (.fuel, s)
+  | n+1 => fun id s => nodeParse g (parse g n) n id s
 
 /-- initial parser state: `Parser.__init__` + `Parser.parse` -/
 def initState (skipws : Bool) (ws : List Char) : PState :=
